@@ -24,7 +24,7 @@ var assumptions = []string{
 var sess *vf.Session
 
 func opts() restarteng.GenOpts {
-	o := restarteng.GenOpts{Crash: true, MaxTables: 8, MaxCols: 6, SpecialKind: []string{dbh.IdxUniqSkip}, Prof: sqlgen.Profile{MaxStr: 60}, ManyTablesPct: 12, BigJoinPct: 4, BigLogPct: 2}
+	o := restarteng.GenOpts{Crash: true, MaxTables: 8, MaxCols: 6, SpecialKind: []string{dbh.IdxUniqSkip}, Prof: sqlgen.Profile{MaxStr: 60}, ManyTablesPct: 12, BigJoinPct: 4, BigLogPct: 2, ChurnPct: 1}
 	if sess != nil && sess.ExclusionOn("null-in-indexed-column") {
 		o.Prof.NoNullIndexed = true
 	}
